@@ -33,8 +33,10 @@ type Prog struct {
 	oneofCache    map[*types.Struct]bool
 	oneofWrappers int
 	// partialDecode: position of a decoder configured with AllowPartial ("" if none).
-	partialDecode string
-	partialTypes  map[*types.Struct]bool
+	partialDecode  string
+	memberIdxDone  bool
+	memberIdxCache *memberIndex
+	partialTypes   map[*types.Struct]bool
 	// byObj: declared function object -> SSA function.
 	byObj map[*types.Func]*ssa.Function
 	// decls: SSA function -> its syntax
